@@ -15,6 +15,7 @@ func init() {
 }
 
 func checkC04(c *Ctx, r *Report) {
+	defer checkProcessWideState(c, r, "C04.b")
 	w := c.W
 	r.NotDecided = append(r.NotDecided, "meaning of scope strings; ordering inside one AND-list (a JSON object in 3.0)", "the router side of the equation is decided in C03 (gate iterates RouteMetadata.Security)")
 	r.Assume = append(r.Assume, "the router enforces RouteMetadata.Security (C03.e); here only the documenting side and the enforce flag are decided")
